@@ -343,13 +343,9 @@ let run_case (line : string) : string =
         (M.Val (M.writer_of (bytes_of_hex (arg 1)))) avps in
     outcome (fun w -> "Ok " ^ hex_of_bytes w.M.w_data ^ " log=" ^ print_log w.M.w_log) r
   | "HIDE" ->
-    outcome (fun a -> "Ok " ^ print_avp a)
-      (M.m_hide M.md5 (parse_avp (arg 1)) (bytes_of_hex (arg 2)) (bytes_of_hex (arg 3))
-         (bytes_of_hex (arg 4)) (bytes_of_hex (arg 5)))
-  | "REVEAL" ->
-    outcome (fun r -> match r with M.Ok a -> "Ok " ^ print_avp a | M.Err e -> "Err " ^ print_err e)
-      (M.m_reveal M.md5 (parse_avp (arg 1)) (bytes_of_hex (arg 2)) (bytes_of_hex (arg 3)))
-  | "MD5" -> hex_of_bytes (M.md5 (bytes_of_hex (arg 1)))
+    ocaml_string (M.ch_hide (parse_avp (arg 1)) (bytes_of_hex (arg 2)) (bytes_of_hex (arg 3)) (bytes_of_hex (arg 4)) (bytes_of_hex (arg 5)))
+  | "REVEAL" -> ocaml_string (M.ch_reveal (parse_avp (arg 1)) (bytes_of_hex (arg 2)) (bytes_of_hex (arg 3)))
+  | "MD5" -> ocaml_string (M.ch_md5 (bytes_of_hex (arg 1)))
   | "RDOPS" ->
     outcome (fun (obs, rest) -> print_obs_list obs ^ " rem=" ^ dec_of_n (M.len rest))
       (M.run_rops (parse_rops (arg 2)) (bytes_of_hex (arg 1)))
